@@ -295,6 +295,50 @@ pub(crate) mod k {
         }
     }
 
+    /// contact dispatch: which pairs of fragments can be grouped at all, and through which predicate
+    pub(crate) static mut CONTACT: [bool; 4] = [false; 4];
+    pub(crate) fn stub_line_touching(_a: &Line, _b: &Line) -> bool {
+        unsafe { CONTACT[0] }
+    }
+    pub(crate) fn stub_line_touching_arc(_a: &Line, _b: &Arc) -> bool {
+        unsafe { CONTACT[1] }
+    }
+    pub(crate) fn stub_line_touching_circle(_a: &Line, _b: &Circle) -> bool {
+        unsafe { CONTACT[2] }
+    }
+    pub(crate) fn stub_arc_touching(_a: &Arc, _b: &Arc) -> bool {
+        unsafe { CONTACT[3] }
+    }
+
+    #[kani::proof]
+    #[kani::unwind(7)]
+    #[kani::stub(crate::buffer::fragment_buffer::fragment::line::Line::is_touching, stub_line_touching)]
+    #[kani::stub(crate::buffer::fragment_buffer::fragment::line::Line::is_touching_arc, stub_line_touching_arc)]
+    #[kani::stub(crate::buffer::fragment_buffer::fragment::line::Line::is_touching_circle, stub_line_touching_circle)]
+    #[kani::stub(crate::buffer::fragment_buffer::fragment::arc::Arc::is_touching, stub_arc_touching)]
+    pub(crate) fn check_fragment_contact_dispatch() {
+        let c: [bool; 4] = kani::any();
+        unsafe { CONTACT = c };
+        kani::cover!(true);
+        let mut kf = 0u8;
+        while kf < 5 {
+            let mut kg = 0u8;
+            while kg < 5 {
+                let (f, g) = (plain_fragment_concrete(kf), plain_fragment_concrete(kg));
+                let want = match (kf, kg) {
+                    (0, 0) => c[0],          // line - line: Line::is_touching
+                    (0, 3) | (3, 0) => c[1], // line - arc: a shared end point
+                    (0, 2) | (2, 0) => c[2], // line - circle
+                    (3, 3) => c[3],          // arc - arc
+                    _ => false,              // marker lines, rects and every other pair never group
+                };
+                assert!(f.is_contacting(&g) == want, "contact dispatch");
+                kg += 1;
+            }
+            kf += 1;
+        }
+    }
+
     fn plain_fragment_concrete(k: u8) -> Fragment {
         match k {
             0 => Fragment::Line(Line::new_noswap(Point::new(0.0, 0.0), Point::new(1.0, 0.0), false)),
